@@ -106,9 +106,13 @@ def atlas_body_docs():
                                   params=[P("q", "query", {"type": "string"}, False), P("X-H", "header", {"type": "string"}, False)])},
         "/multi/same": {"post": op("same_schema_two_media", body={"content": {"application/json": {"schema": {"$ref": REF + "Other"}},
                                                                                 "application/x-www-form-urlencoded": {"schema": {"$ref": REF + "Other"}}}})},
+        "/multipart/model": {"post": op("multipart_model", body={"content": {"multipart/form-data": {"schema": {"$ref": REF + "Upload"}}}})},
+        "/octet/raw": {"post": op("octet_raw", body={"content": {"application/octet-stream": {"schema": {"type": "string", "format": "binary"}}}})},
         "/json/charset": {"post": op("json_charset", body={"content": {"application/json; charset=utf-8": {"schema": {"$ref": REF + "Item"}}}})},
     }
-    return [("bodies", doc(paths))]
+    upload = obj({"title": {"type": "string"}, "count": {"type": "integer"}, "flag": {"type": "boolean"}, "when": {"type": "string", "format": "date"},
+                  "kind": {"$ref": REF + "Color"}, "tags": arr({"type": "string"}), "meta": {"$ref": REF + "Other"}, "ratio": {"type": "number"}}, required=["title", "count"])
+    return [("bodies", doc(paths, schemas={"Upload": upload}))]
 
 
 def atlas_response_docs():
@@ -216,7 +220,7 @@ def values_for(kind, rng, abs_=None):
         inst = Inst(abs_, rng)
         return [("model", kind[1], inst.model_instance(kind[1], 0, True)) for _ in range(2)]
     if t == "file":
-        return []
+        return [("file", "00ff10626c6f62")]
     return []
 
 
@@ -235,6 +239,8 @@ def to_marker(v):
         return {"@model": [v[1], to_runner_json(v[2])]}
     if t == "list":
         return {"@list": [to_marker(x) for x in v[1]]}
+    if t == "file":
+        return {"@file": v[1]}
     raise ValueError(v)
 
 
@@ -260,4 +266,6 @@ def to_cpv(v, ab, oname="O0", tname="T0"):
     if t == "list":
         items = [to_cpv(x, ab, oname, tname) for x in v[1]]
         return "(PList [" + "; ".join(items) + "])"
+    if t == "file":
+        return "(PJ (JStr " + cstr(bytes.fromhex(v[1]).decode("latin-1")) + "))"
     raise ValueError(v)
